@@ -1458,7 +1458,7 @@ func init() {
 	Register(Spec[c14ChainIn]{
 		ID: "C14", Suite: "chain", CoqImports: []string{"Check.C14"},
 		CoqType: "bool * list (string * string) * list (option (list (string * option string)))", CoqRun: "Check.C14.run_chain",
-		Quick: 800, Thorough: 10000,
+		Quick: 800, Thorough: 4000,
 		Corpus: c14ChainCorpus, Exhaustive: c14ChainExhaustive, Gen: c14ChainGen,
 		Run: c14ChainRun, Coq: c14ChainCoq, Shrink: c14ChainShrink,
 	})
